@@ -134,7 +134,8 @@ package dns
 //@   ensures advance: r.cur == old(r.cur) || (ret0 == '\n' && (r.eof || r.cur > old(r.cur)))
 // a template octet that is neither $ nor a backslash is handed on: itself, or - when a backslash is still owed,
 // because it turned out not to escape a $ or a backslash - that backslash first, with the octet presented again
-//@   exit plain: ret1 == nil && r.s[si] != '\\' && r.s[si] != '$' ==> ret0 == r.s[si] || (ret0 == '\\' && r.si == si && !r.escape)
+//@   ghost si0 at "r.si++@1" r.si
+//@   exit plain: ret1 == nil && r.s[si0] != '\\' && r.s[si0] != '$' ==> ret0 == r.s[si0] || (ret0 == '\\' && r.si == si0 && !r.escape)
 //@ func (*generateReader).parseError [C06 C07]
 //@   requires r != nil && r.lex != nil && 1 <= r.si && r.si - 1 <= end && end <= len(r.s)
 //@   ensures r.eof && ret0 != nil
